@@ -25,6 +25,8 @@ def envValOf (s : String) : Option (Option (List Char)) :=
 ops
   `thr <unset|hex of the value>`   → `threshold()`
   `disp <t> <len>`                 → `re2` | `grafana`: the engine `FindAllIndex` runs under threshold `t` for `len` input bytes
+  `hyb <t> <len> g=<digest> r=<digest>` → the digest of what `hybridre2.FindAllIndex` must return for an input of `len` bytes under
+                                     threshold `t`, given the digests of the two engines' own results for the same call
   `fa <tree> <orbits> <subject>`   → spec only: spans of both engines (rune indices) admissible for the tree and equal
 -/
 def handle (line : String) : String :=
@@ -38,6 +40,10 @@ def handle (line : String) : String :=
     match t.toInt?, n.toNat? with
     | some t, some n => answer (if dispatch t n then "re2" else "grafana")
     | _, _ => badCase "disp fields"
+  | ["hyb", t, n, g, r2] =>
+    match t.toInt?, n.toNat?, stripPrefix? "g=" g, stripPrefix? "r=" r2 with
+    | some t, some n, some g, some r2 => answer (hybridSelect t n g r2)
+    | _, _, _, _ => badCase "hyb fields"
   | ["fa", t, orb, subj] =>
     match parseTree t, parseOrbits orb, parseNats subj, parseFaImpl impl with
     | some r, some tab, some s, some (g, r2) =>
